@@ -115,6 +115,18 @@ def run_all(tier, seed):
             res['reason'] = 'extraction: ' + str(err[2])[:2000]
             json.dump(res, open(rfile, 'w'))
             return res, cdir
+        # a function with a lost anchor/loop/closure is verified WITHOUT ANY hint, so that its verdicts are comparable with
+        # contracts/nohint_baseline.json (computed hint-free on the unchanged tree)
+        lost_now = set()
+        for l in xlog.get('lost', []):
+            m = re.match(r'LOST-\w+ (\S+)', l)
+            if m and m.group(1) not in nohint:
+                lost_now.add(m.group(1))
+        if lost_now and attempt < 3:
+            for k in sorted(lost_now):
+                nohint.append(k)
+                res['degraded'][k] = 'hints not injected (anchor lost: source restructured)'
+            continue
         # vacuity probe appended to the crate-root module (all trusted axioms in scope)
         txt = open(path).read()
         lit = '// ---- generated literal constants (N4)'
@@ -232,6 +244,10 @@ def check(prop, tier, seed):
         m = re.match(r'LOST-\w+ (\S+)', l)
         if m:
             lost_fns.add(m.group(1))
+    try:
+        nohint_baseline = json.load(open(os.path.join(D.VERIF, 'contracts', 'nohint_baseline.json')))
+    except Exception:
+        nohint_baseline = {}
     bd = fn_breakdown(js)
     fn_labels = gi.fn_labels()
     # labelled obligations of this property: (function key, label)
@@ -274,10 +290,20 @@ def check(prop, tier, seed):
         concerns = prop in props or (not props and fkey in prop_fns)
         if not concerns:
             continue
-        if f['kind'] == 'rlimit' or re.sub(r'\s+', '', str(fkey)) in lost_fns:
-            if re.sub(r'\s+', '', str(fkey)) in lost_fns:
+        nk = re.sub(r'\s+', '', str(fkey))
+        if f['kind'] == 'rlimit' or nk in lost_fns:
+            if nk in lost_fns:
+                # hint-free differential: a labelled postcondition that Verus proves WITHOUT hints on the unchanged tree
+                # (contracts/nohint_baseline.json) and that fails without hints on this tree is a violation
+                base = set(nohint_baseline.get(nk, []))
+                mine_l = [l for l in f['labels'] if l.split('.')[0] == prop]
+                if f['kind'] == 'semantic' and mine_l and all(l in base for l in mine_l) and 'postcondition' in f['message']:
+                    f = dict(f)
+                    f['message'] = f['message'] + ' [function restructured: verified without hints; this clause is proved hint-free on the unchanged tree]'
+                    violations.append(f)
+                    continue
                 f = dict(f)
-                f['message'] = 'proof hint anchor lost in %s (source restructured); ' % fkey + f['message']
+                f['message'] = 'proof hints could not be used in %s (source restructured); ' % fkey + f['message']
             undecided_fns.append(f)
         else:
             violations.append(f)
@@ -297,6 +323,13 @@ def check(prop, tier, seed):
             if f['fn'] != 'vp_must_fail' and f['fn'] in prop_fns and not any(v['fn'] == f['fn'] for v in violations):
                 unstable.append('%s: %s under %s' % (f['fn'], f['message'][:60], r['name']))
 
+    # conservative: when the solver ran out of resources inside a function, its other verdicts for that function are not
+    # trusted either (an unstable proof must never become an alarm)
+    rl_fns = set(f['fn'] for f in fl if f['kind'] == 'rlimit')
+    moved = [v for v in violations if v['fn'] in rl_fns and not v.get('kani')]
+    if moved:
+        violations = [v for v in violations if not (v['fn'] in rl_fns and not v.get('kani'))]
+        undecided_fns += moved
     failed_fns = set(f['fn'] for f in violations) | set(f['fn'] for f in undecided_fns)
     discharged = [(fk, lab) for (fk, lab) in obligations if fk not in failed_fns]
     # supporting library functions (lemmas, spec-fn termination checks) verified in this run
